@@ -31,6 +31,7 @@ RecAt(R, m) ==      \* the same position of a recorded state (1..)
 ProbeVerdict(x) ==
     IF Failed(x)
     THEN [id |-> x.id, kind |-> "probe", ok |-> FALSE, crashed |-> TRUE,
+          hist_ok |-> FALSE, route |-> "?", known |-> {},
           impl_ok |-> FALSE, ref_ok |-> FALSE, agree |-> FALSE, order_ok |-> FALSE, symtab_ok |-> FALSE,
           usable |-> TRUE, nimpl |-> 0, nref |-> 0, first |-> <<>>, nev |-> 0, nloop |-> 0,
           orderdiff |-> 0]
@@ -46,8 +47,17 @@ ProbeVerdict(x) ==
         st == SymTabDiff(x) = {} /\ SymOrderBad(x) = {}
         usable == ~W.bad /\ WellFormed(x)       \* else: a generator fault, no verdict
         m == CHOOSE v \in mi \cup mr : TRUE
+        \* Known_C02-cdivision-int: the program divides two integer-typed
+        \* operands, the executor agrees with Eval, and the compiled state is
+        \* exactly the state obtained when every such `/` truncates
+        cdivKnown == /\ mi # {} /\ x.idiv /\ mr = {} /\ df = 0 /\ st /\ x.oldtouched = 0
+                     /\ Mismatch(x, EvalLogM(x, log, c1[2], TRUE).A, x.impl) = {}
     IN [id |-> x.id, kind |-> "probe", crashed |-> FALSE,
-        ok |-> mi = {} /\ mr = {} /\ df = 0 /\ st /\ x.ratbits = 0,
+        ok |-> mi = {} /\ mr = {} /\ df = 0 /\ st /\ x.ratbits = 0 /\ x.oldtouched = 0,
+        \* history: compute() after update_particle_arrays leaves the replaced
+        \* arrays (properties and constants) as they were
+        hist_ok |-> x.oldtouched = 0, route |-> x.route,
+        known |-> IF cdivKnown THEN {"C02-cdivision-int"} ELSE {},
         impl_ok |-> mi = {}, ref_ok |-> mr = {}, agree |-> x.ratbits = 0, order_ok |-> df = 0,
         symtab_ok |-> st, usable |-> usable,
         nimpl |-> Cardinality(mi), nref |-> Cardinality(mr),
